@@ -201,7 +201,7 @@ fn record(seed: u64, runs: u64, target: usize, path: &str, faults: bool, palette
         } else if k % 12 == 4 {
             // control functions that END in 'm' but are not SGR (an intermediate byte or a private marker in front): they select
             // nothing, whatever their parameters look like
-            let mut v = b"a\x1b[31 mb\x1b[44$mc\x1b[32md\x1b[0 me\x1b[?35mf\x1b[>4;2mg\x1b[41!m\x1b[1\"mh\x1b[0m ".to_vec();
+            let mut v = b"a\x1b[31 mb\x1b[44$mc\x1b[32md\x1b[0 me\x1b[?35mf\x1b[>4;2mg\x1b[41!m\x1b[1\"mh\x1b[0m \x1b[38;2;1;2;3;48;2;4;31;42mi\x1b[0m\x1b[48;2;9;9;9;38;2;7;34;45mj\x1b[0m\x1b[58;2;1;1;1;38;2;2;91;104mk\x1b[0m ".to_vec();
             v.extend(gen::gen_styled_text(&mut r, target / 2, false));
             v
         } else {
